@@ -30,7 +30,7 @@ Print Assumptions C01_normalisation_sound.
     only inside a loop of the same coroutine, return only inside a call and not as the very first
     action of the process, every continue separated from its loop head by a clock; the interpreter
     fuel [Coro.ref_fuel] statically sufficient; wait_for(n) for every constant n >= 1 except n = 1 as the
-    very first action (C16_lower_wait1_first_refuted); NOT covered: wait_for with a run-time duration) and EVERY input
+    very first action (C16_lower_wait1_first_refuted); wait_for with a run-time duration: C16_lower_wait_rt_correct, under an assumption on that input) and EVERY input
     sequence of any length the lowered machine has the trace of the coroutine semantics.  The model is
     tied to the real compiler per generated program (harness/c01.py, theorem case_low). *)
 Theorem C01_lower_correct :
